@@ -284,9 +284,16 @@ func cmdVerify(args []string) (code int) {
 		nViol++
 		rp := filepath.Join(replayDir, sanitize(strings.ReplaceAll(s.Name, "/", "_"))+".json")
 		rec := map[string]interface{}{"property": cfg.ID, "obligation": s.Name, "kind": s.Kind, "clause": s.Text, "detail": s.Detail}
+		suffix := " no-failing-input-found"
+		if ok, detail := tryReplay(*verif, *repo, overlay, &cfg, &Obligation{Name: s.Name, Text: s.Text}, rec); ok {
+			suffix = ""
+			rec["replayed"] = detail
+		} else if detail != "" {
+			rec["replay_attempt"] = detail
+		}
 		d, _ := json.MarshalIndent(rec, "", " ")
 		os.WriteFile(rp, d, 0o644)
-		violations = append(violations, fmt.Sprintf("VIOLATION property=%s replay=%s obligation=%s (%s) no-failing-input-found", cfg.ID, rp, s.Name, truncate(s.Detail, 200)))
+		violations = append(violations, fmt.Sprintf("VIOLATION property=%s replay=%s obligation=%s (%s)%s", cfg.ID, rp, s.Name, truncate(s.Detail, 200), suffix))
 	}
 	total := len(allObls) - nCover + len(sres)
 	if *dump {
